@@ -3,6 +3,7 @@ package props
 import (
 	"fmt"
 	"go/ast"
+	"go/token"
 	"go/types"
 	"strings"
 
@@ -61,6 +62,8 @@ func runC18(c *core.Ctx) {
 	checkGroupByWatermarkOrder(c)
 	checkMetaSendOwnership(c)
 	checkMaxDiffWatermark(c, "GEN")
+	c.Rule("JOINTIME", "joins stamp what they emit with an event time not older than the processed record's")
+	checkJoinRecordTimes(c, "JOINTIME")
 	c.Rule("TRIGTIME", "group by: retraction and new row carry the same, current event time")
 	checkTriggerEventTime(c)
 }
@@ -879,4 +882,124 @@ func checkTriggerEventTime(c *core.Ctx) {
 		}
 		c.Decide(bad == "", "TRIGTIME", ckey, fn.Decl.Pos(), len(outs), "retraction and new row carry the same, current event time", bad)
 	}
+}
+
+// checkJoinRecordTimes (JOINTIME): a join processes a buffered record only once the forwarded watermark is still below
+// its event time, so everything it emits while processing that record must carry an event time not older than the
+// record's: the record's own event time, or a variable started from it and only ever raised (`if x.After(v) { v = x }`).
+// An event time taken from stored state alone (the time of an old record of the other side) can lie behind a watermark
+// that has already been forwarded.
+func checkJoinRecordTimes(c *core.Ctx, rule string) {
+	p := c.Prog
+	total := 0
+	for _, typ := range []string{"StreamJoin", "OuterJoin"} {
+		for _, m := range []string{"receiveRecord", "produceUnmatched"} {
+			fn := p.Func("execution/nodes", "(*"+typ+")."+m)
+			if fn == nil {
+				continue
+			}
+			key := "execution/nodes.(*" + typ + ")." + m
+			c.SawFunc(key)
+			info := fn.Info()
+			// the record being processed: the parameter of type execution.Record
+			var recObj types.Object
+			for _, f := range fn.Decl.Type.Params.List {
+				for _, nm := range f.Names {
+					if t := info.TypeOf(f.Type); t != nil && strings.HasSuffix(t.String(), "execution.Record") {
+						recObj = info.Defs[nm]
+					}
+				}
+			}
+			if recObj == nil {
+				c.Unknown(rule, key, fn.Decl.Pos(), "no execution.Record parameter")
+				continue
+			}
+			recTime := recObj.Name() + ".EventTime"
+			// variables that start from the record's time and are only raised
+			raised := map[types.Object]string{} // obj -> "" ok / reason
+			ast.Inspect(fn.Decl.Body, func(n ast.Node) bool {
+				as, ok := n.(*ast.AssignStmt)
+				if !ok || len(as.Lhs) != 1 || len(as.Rhs) != 1 {
+					return true
+				}
+				id, ok := as.Lhs[0].(*ast.Ident)
+				if !ok {
+					return true
+				}
+				if t := info.TypeOf(id); t == nil || t.String() != "time.Time" {
+					return true
+				}
+				if as.Tok == token.DEFINE {
+					if obj := info.Defs[id]; obj != nil {
+						if core.ExprStr(as.Rhs[0]) == recTime {
+							raised[obj] = ""
+						} else {
+							raised[obj] = "starts from " + core.ExprStr(as.Rhs[0])
+						}
+					}
+				}
+				return true
+			})
+			core.WalkStack(fn.Decl.Body, func(n ast.Node, stack []ast.Node) bool {
+				as, ok := n.(*ast.AssignStmt)
+				if !ok || as.Tok != token.ASSIGN || len(as.Lhs) != 1 || len(as.Rhs) != 1 {
+					return true
+				}
+				id, ok := as.Lhs[0].(*ast.Ident)
+				if !ok {
+					return true
+				}
+				obj := info.Uses[id]
+				if _, tracked := raised[obj]; !tracked {
+					return true
+				}
+				// must sit directly in `if RHS.After(v) { v = RHS }`
+				okRaise := false
+				for i := len(stack) - 1; i >= 0; i-- {
+					if is, ok := stack[i].(*ast.IfStmt); ok {
+						want := core.ExprStr(as.Rhs[0]) + ".After(" + id.Name + ")"
+						want2 := id.Name + ".Before(" + core.ExprStr(as.Rhs[0]) + ")"
+						if cs := core.ExprStr(is.Cond); cs == want || cs == want2 {
+							okRaise = true
+						}
+						break
+					}
+				}
+				if !okRaise && raised[obj] == "" {
+					raised[obj] = fmt.Sprintf("is overwritten with %s at %s without being compared", core.ExprStr(as.Rhs[0]), p.Pos(as.Pos()))
+				}
+				return true
+			})
+			n := 0
+			ast.Inspect(fn.Decl.Body, func(nd ast.Node) bool {
+				call, ok := nd.(*ast.CallExpr)
+				if !ok || len(call.Args) != 3 || !strings.HasSuffix(p.CalleeName(info, call), "execution.NewRecord") {
+					return true
+				}
+				n++
+				total++
+				arg := core.Unparen(call.Args[2])
+				ckey := fmt.Sprintf("%s/record %d (retraction=%s)", key, n, core.ExprStr(call.Args[1]))
+				bad := ""
+				switch {
+				case core.ExprStr(arg) == recTime:
+				default:
+					id, isId := arg.(*ast.Ident)
+					why, tracked := "", false
+					if isId {
+						why, tracked = raised[info.Uses[id]]
+					}
+					if !tracked {
+						bad = fmt.Sprintf("the emitted record is stamped with %s, which does not depend on the event time of the record being processed: a stored event time can lie at or below a watermark the join has already forwarded, which makes the emitted record late", core.ExprStr(arg))
+					} else if why != "" {
+						bad = fmt.Sprintf("the emitted record is stamped with %s, which %s: it can be older than the record being processed and lie behind a forwarded watermark", id.Name, why)
+					}
+				}
+				c.Decide(bad == "", rule, ckey, call.Pos(), 1, "event time ≥ the processed record's event time", bad)
+				return true
+			})
+		}
+	}
+	c.Floor(rule, 6, "records emitted by StreamJoin and OuterJoin while processing a record")
+	_ = total
 }
